@@ -2,6 +2,7 @@
 // reparameterize_spline.  Records the program (small integers, exactly representable) and what the library
 // returned; spec/TraceLP2D.tla decides against the definition in spec/LP2D.tla.  The harness never judges.
 //   --n N     number of random programs (3..7 rows, coefficients -3..3) after the exhaustive part
+//   --wide W  W generic random programs with coefficients -30..30
 //   --box B   exhaustive part: every program with at most 2 rows over -B..B and every objective over -1..1
 #include <smooth/external/lp2d.hpp>
 
@@ -81,6 +82,25 @@ int main(int argc, char ** argv)
     int cx = rng.idx(7) - 3, cy = rng.idx(7) - 3;
     if (cx == 0 && cy == 0) cx = 1;
     one(boxed ? "rnd.boxed" : "rnd", cx, cy, rows);
+  }
+  // generic programs: coefficients -30..30 (ties and parallel rows are rare), half of them inside a box
+  const long wide = std::stol(vh::arg(argc, argv, "--wide", "0"));
+  for (long k = 0; k < wide; ++k) {
+    const int m = 3 + rng.idx(6);
+    std::vector<std::array<double, 3>> rows;
+    const bool boxed = rng.idx(2) == 0;
+    for (int i = 0; i < m; ++i) rows.push_back({double(rng.idx(61) - 30), double(rng.idx(61) - 30), double(rng.idx(61) - 30)});
+    if (boxed) {
+      const int w = 1 + rng.idx(30);
+      rows.push_back({1, 0, double(w)});
+      rows.push_back({-1, 0, double(w)});
+      rows.push_back({0, 1, double(w)});
+      rows.push_back({0, -1, double(w)});
+      for (std::size_t i = rows.size() - 1; i > 0; --i) std::swap(rows[i], rows[static_cast<std::size_t>(rng.idx(int(i) + 1))]);
+    }
+    int cx = rng.idx(61) - 30, cy = rng.idx(61) - 30;
+    if (cx == 0 && cy == 0) cx = 1;
+    one(boxed ? "wide.boxed" : "wide", cx, cy, rows);
   }
   sink.close();
   return 0;
